@@ -164,6 +164,10 @@ def main(argv=None):
     # extra known findings that a harness reports directly (events etc.)
     undecided = unknown + not_reproduced
     decided = n_unsat + len(sat) - len(not_reproduced)
+    # auxiliary claims about implementation internals (present only while the implementation keeps the local
+    # names they read) must be decided when present but do not count towards the ledger
+    n_aux = sum(1 for v in counted if v.get("kind") == "aux" and v["verdict"] in ("sat", "unsat"))
+    decided_core = decided - n_aux
 
     ledger = getattr(P, "LEDGER", {}).get(a.tier, 0)
     status = 0
@@ -192,8 +196,8 @@ def main(argv=None):
         harness_err += [f"second solver reported (error on {v['obligation']}" for v in second_errors]
     if val_error:
         harness_err.append("translator validation failed: " + val_error)
-    if decided < ledger:
-        harness_err.append(f"only {decided} obligations decided, ledger requires {ledger}")
+    if decided_core < ledger:
+        harness_err.append(f"only {decided_core} obligations decided, ledger requires {ledger}")
     allow = getattr(P, "ALLOW_UNDECIDED", 0)
     if len(undecided) > allow and not a.jobs:
         harness_err.append(f"{len(undecided)} obligation(s) undecided (unknown, or a counterexample that did not reproduce on the real code); "
